@@ -2,6 +2,7 @@
 from vf.core import Gen
 
 META = dict(
+    technique='solver-based bounded symbolic execution of the real code (CrossHair + z3), counterexample replay; one memoisation condition runs solver-chosen inputs outside the tracer (CrossHair skips functools.lru_cache)',
     functions_encoded=["pydra.compose.shell.templating.template_update", "template_update_single", "_template_formatting",
                        "_single_template_formatting", "_element_formatting", "pydra.compose.shell.task.ShellTask._command_args (h_argv_*)"],
     stubs=["output fields are typed fileformats.generic.File; nothing touches the file system (templates are resolved before execution)"],
